@@ -3,7 +3,7 @@ from ..common import DRIVER
 from .. import corr
 
 def corpus_cases(prop, part):
-    return [["kill 1 0 1", "reopen"], ["kill 6 150 2", "reopen", "append 2 save", "kill 3 0 0", "reopen"]]
+    return [["append 2", "busyappend", "reopen"], ["kill 1 0 1", "reopen"], ["kill 6 150 2", "reopen", "append 2 save", "kill 3 0 0", "reopen"]]
 
 def out_kind(line):
     return line.split(" ", 1)[0]
@@ -18,8 +18,10 @@ def gen(rng, tier, n):
                 lines.append("kill %d %d %d" % (rng.randint(1, 40), rng.choice([0, 0, 20, 100, 300, 1000, 3000]), rng.choice([0, 1, 2, 5])))
                 if rng.random() < 0.7:
                     lines.append("reopen")
-            elif x < 0.85:
+            elif x < 0.78:
                 lines.append("append %d%s" % (rng.randint(1, 5), " save" if rng.random() < 0.5 else ""))
+            elif x < 0.88:
+                lines.append("busyappend")      # a second connection holds the write lock: Append must not acknowledge
             else:
                 lines.append("reopen")
         lines.append("reopen")
